@@ -557,6 +557,40 @@ def gen_revisions(rnd):
     return texts, expect_err, kinds
 
 
+
+def on_demand_ops(schema, rnd):
+    """ops for the `process` command that READ only some modules explicitly (L) and leave the others to be found through
+    the search path when an import or include statement asks for them (D = written into a directory on ms.Path);
+    None when every module has to be read explicitly.  Every module left to the path is reachable from a module that is
+    read, through import / include statements."""
+    by = {m["name"]: i for i, m in enumerate(schema)}
+
+    def reach(i, seen):
+        m = schema[i]
+        for nm in [mn for _, mn in m["imports"]] + list(m["includes"]):
+            j = by.get(nm)
+            if j is not None and j not in seen:
+                seen.add(j)
+                reach(j, seen)
+        return seen
+    idx = [i for i, m in enumerate(schema) if m["belongs"] is None]
+    rnd.shuffle(idx)
+    roots, covered = [], set()
+    for i in idx:
+        if i not in covered:
+            roots.append(i)
+            covered.add(i)
+            covered |= reach(i, set())
+    for i, m in enumerate(schema):
+        if i not in covered:
+            roots.append(i)          # a submodule nobody includes: read it
+            covered.add(i)
+    lazy = [i for i in range(len(schema)) if i not in roots]
+    if not lazy:
+        return None, 0
+    return ",".join(["D%d" % i for i in lazy] + ["L%d" % i for i in sorted(roots)] + ["P"]), len(lazy)
+
+
 # ------------------------------------------------------------------ run
 def run_go(lines):
     tmp = tempfile.mkdtemp(prefix="c04cwd")
@@ -672,6 +706,43 @@ def run(res, tier, seed, proof):
             violation("the side condition of C04_T1_choice_clause_side_condition does not hold on a clean case: %s" % o,
                       dict(kind="side-condition", ml_case=ml_lines[i], go_case=go_lines[i], features=cases[i][2], obs=o,
                            text="\n".join(sg.render_module(x) for x in cases[i][0])))
+    # ---- family "on demand": the same sets with some modules NOT read explicitly but found through the search path when
+    # an import / include asks for them.  Everything Process does (error sweeps, augment rounds, FixChoice, deviations)
+    # has to reach those modules too: the observation (status, canonical forest of ALL modules, walker, flags) must be
+    # the one of the run that read every module explicitly, i.e. the model's.
+    od_lines, od_idx = [], []
+    stats.update(on_demand_cases=0, on_demand_modules=0, on_demand_clean=0)
+    for i, (sch, o, feats) in enumerate(cases):
+        ops, n_lazy = on_demand_ops(sch, random.Random(rnd.getrandbits(32)))
+        if ops is None or not (go[i].startswith("{")):
+            continue
+        od_lines.append(sg.go_case(sch, opts=o, ops=ops))
+        od_idx.append(i)
+        stats["on_demand_cases"] += 1
+        stats["on_demand_modules"] += n_lazy
+    od_go = run_go(od_lines)
+    for i, line, g in zip(od_idx, od_lines, od_go):
+        st0, canon0, _ = sg.canon_go(go[i])
+        st, canon, j = sg.canon_go(g)
+        sch, o, feats = cases[i]
+        rep = dict(kind="on-demand", go_case=line, go_case_explicit=go_lines[i], ml_case=ml_lines[i], features=feats,
+                   text="\n".join(sg.render_module(x) for x in sch))
+        if st0 not in ("ok", "err"):
+            continue
+        if (st, canon) != (st0, canon0):
+            violation("modules found through the search path are processed differently from modules read explicitly: "
+                      "explicit=%s on-demand=%s (features %s)" % (st0, st if st != "ok" or st0 != "ok" else "ok, other trees", feats),
+                      dict(rep, explicit=(canon0 or st0)[:3000], on_demand=(canon or st)[:3000]))
+        if st == "ok":
+            stats["on_demand_clean"] += 1
+            run_ = j["runs"][-1]
+            bad = list(run_["treeviol"] or [])
+            for md in run_["modules"]:
+                walk_flags(md["tree"], bad)
+            if bad:
+                violation("tree invariant violated after a clean Process with modules found through the search path: %s"
+                          % "; ".join(bad[:3]), dict(rep, treeviol=bad[:10]))
+
     # ---- family "revisions" (implementation only)
     n_rev = 200 if tier == "quick" else 4000
     revc = [gen_revisions(random.Random(rnd.getrandbits(64))) for _ in range(n_rev)]
@@ -709,8 +780,10 @@ def run(res, tier, seed, proof):
                 violation("tree invariant violated after a clean Process (some revision's tree): %s" % "; ".join(bad[:3]),
                           dict(rep, treeviol=bad[:10]))
     cov = dict(
-        evaluations=len(cases) + len(side_idx) + n_rev, distinct_nontrivial=stats["ok"] + stats["err"],
-        rule="family `revisions` (text level, implementation only): 2..3 revisions of module base loaded together, 1..3 importers "
+        evaluations=len(cases) + len(side_idx) + n_rev + len(od_lines), distinct_nontrivial=stats["ok"] + stats["err"],
+        rule="family `on demand`: every composed / random set once more with only some modules read explicitly and the others "
+             "(reachable through import / include) found on the search path (ops D of the process command): same status, same "
+             "canonical forest over ALL modules, walker and flags clean.  Family `revisions` (text level, implementation only): 2..3 revisions of module base loaded together, 1..3 importers "
              "pinning a revision (or none) and augmenting /b:c of that revision with a leaf the revision may already have, with "
              "a leaf into a container the revision may lack, or with a name another importer of the same revision adds too; "
              "error expected by construction iff some augment conflicts / finds no target in the tree it is bound to, else "
@@ -741,6 +814,15 @@ def run(res, tier, seed, proof):
 
 
 def replay(rep, res):
+    if rep.get("kind") == "on-demand":
+        a = sg.canon_go(run_go([rep["go_case_explicit"]])[0])
+        b = sg.canon_go(run_go([rep["go_case"]])[0])
+        print(rep["text"])
+        print("explicit :", (a[1] or a[0])[:3000])
+        print("on demand:", (b[1] or b[0])[:3000])
+        if b[2] is not None:
+            print("treeviol:", b[2]["runs"][-1]["treeviol"])
+        return 0 if a[:2] == b[:2] and not (b[2] and b[2]["runs"][-1]["treeviol"]) else 1
     if rep.get("kind") == "revisions":
         g = run_go([rep["go_case"]])[0]
         j = json.loads(g)
